@@ -53,7 +53,10 @@ def compute_intersection(edgeA, edgeB, f_common_normal):
     xiBs = jnp.hstack((xiBs1, jnp.arange(2)))
     gs = jnp.hstack((gs1, gs2))
 
-    xiAgood = jax.vmap(lambda xia, xib: jnp.where((xia >= 0.0) & (xia <= 1.0) & (xib >= 0.0) & (xib <= 1.0), xia, jnp.nan))(xiAs, xiBs)
+    # End points that project exactly onto an end point of the other edge land on the boundary of this
+    # test; accept them up to rounding, otherwise the whole overlap can be lost.
+    tol = 1e-12
+    xiAgood = jax.vmap(lambda xia, xib: jnp.where((xia >= -tol) & (xia <= 1.0 + tol) & (xib >= -tol) & (xib <= 1.0 + tol), xia, jnp.nan))(xiAs, xiBs)
     argsMinMax = jnp.array([jnp.nanargmin(xiAgood), jnp.nanargmax(xiAgood)])
 
     return xiAs[argsMinMax], xiBs[argsMinMax], gs[argsMinMax]
